@@ -16,6 +16,7 @@ type Case struct {
 	Directives []string `json:"directives"` // per file: "" | "none" | "file" (atlas:txmode directive)
 	Checkpoint int      `json:"checkpoint,omitempty"` // 1-based index of the journal file that is a checkpoint (0 = none): a fresh database starts there, earlier files never run
 	Earlier    []int    `json:"earlier,omitempty"`    // 1-based indexes of further checkpoint files before Checkpoint (skipped like every other earlier file)
+	Late       int      `json:"late,omitempty"`       // 1-based index of a file that is added only after the others were applied; the crashed run and the re-run use --exec-order non-linear
 	K          int      `json:"k"`          // crash at the K-th instrumented point reached (0 = probe run without crash)
 	Point      string   `json:"point"`      // name of that point (from the probe; informational)
 }
@@ -137,7 +138,11 @@ func checkCase(c Case) (Outcome, error) {
 		return out, fmt.Errorf("harness: %v", err)
 	}
 	defer sb.Close()
+	lateName := fmt.Sprintf("%d_f.sql", c.Late)
 	for n, body := range c.files() {
+		if c.Late > 0 && n == lateName {
+			continue
+		}
 		sb.WriteFile("m/"+n, body)
 	}
 	if r := sb.Run("migrate", "hash", "--dir", "file://m"); r.Code != 0 {
@@ -145,6 +150,17 @@ func checkCase(c Case) (Outcome, error) {
 	}
 	dbp := sb.Path("db.sqlite")
 	args := []string{"migrate", "apply", "--dir", "file://m", "--url", "sqlite://" + dbp, "--tx-mode", c.Mode}
+	if c.Late > 0 {
+		// everything but the late file is applied first; then the file appears, out of order
+		if r := sb.Run(args...); r.Code != 0 {
+			return out, fmt.Errorf("harness: first phase failed: %v", r)
+		}
+		sb.WriteFile("m/"+lateName, c.files()[lateName])
+		if r := sb.Run("migrate", "hash", "--dir", "file://m"); r.Code != 0 {
+			return out, fmt.Errorf("harness: %v", r)
+		}
+		args = append(args, "--exec-order", "non-linear")
+	}
 	logp := sb.Path("points.log")
 	env := []string{"VERIF_POINT_LOG=" + logp}
 	if c.K > 0 {
